@@ -48,6 +48,12 @@ MANIFEST = {
             "tick the inactivity counter reaches keep_alive_frequency; answered -> established for ever; unanswered -> the connection "
             "is reset and the beacon close()s itself on that tick; the server resets after more than keep_alive_frequency silent "
             "ticks; commands need a remote; only a RUNNING, healthy instance with an active connection does anything at a tick). "
+            "ROUND 7 (configuration -> lifecycle): the statements of PrimaiteGame.from_config that apply the scenario's `defaults:` section "
+            "to a service installed from a node's `services:` list are TRANSLATED on every run (semantically: membership, d[k], d.get, int(), "
+            "truthiness, walrus, constant loops unrolled) and proved equal, for all mappings and values, to the specification 'a configured "
+            "duration is the effective one whatever its value - 0, negative, quoted - and an absent key leaves the class default'; composed "
+            "with the lifecycle theorems: a service restarted after the loader configured duration v is RESTARTING through max(v,0) ticks and "
+            "RUNNING at the next, for every integer v; every writer of restart_duration / install_duration in the package is pinned. "
             "CONNECTION BOOKKEEPING (add_connection / terminate_connection): health becomes OVERWHELMED exactly when a connection is "
             "requested at max_sessions; the table never exceeds max_sessions. "
             "Tie: guard tables, validators, countdown idioms, enum values, defaults, the shipped-class table (every receive() "
@@ -55,7 +61,10 @@ MANIFEST = {
             "functions and the normalised bodies of the class methods the payload model follows (Gen/Software.lean, "
             "Gen/SoftwareRecv.lean, obligations C13_gen_*); differential rigs: R-svc on real Computer, Server, Router, Switch and "
             "Firewall nodes over every shipped class; R-recv on two real hosts joined by a real link (real receive of the six "
-            "modelled classes, real NIC/ARP/HostNode/SessionManager/SoftwareManager transport); R-conn and R-bot on real instances.",
+            "modelled classes, real NIC/ARP/HostNode/SessionManager/SoftwareManager transport); R-conn and R-bot on real instances; R-load builds generated scenarios THROUGH "
+            "PrimaiteGame.from_config (defaults section with boundary values, per-service options, applications) and diffs the loaded "
+            "attributes against the specification and requests / whole-game steps / run-time installs against the model instantiated with "
+            "the CONFIGURED durations (enumerated over the value pool + random).",
     "note": "C13-specific: payload processing is modelled for DNS, NTP and web client/server and the three attack loops — FTP client / "
             "server (STOR / RETR, files), database service / client, terminal (C16) are followed only as far as routing and the running-guard; of the C2 suite the "
             "connection state machine is modelled (one tick, keep-alive handlers, command gate; the peer and the network enter as the "
@@ -67,7 +76,9 @@ MANIFEST = {
             "Node.apply_timestep is modelled at its place in the per-service loop only while no power countdown is pending; "
             "termination of the model's transport is proved for nodes with at most 61 installed programs (fuel 4096); "
             "class-specific `execute`/`configure` requests, C2Beacon closing itself, DatabaseService's nested FTPClient install, "
-            "install timing as a single run-level theorem (services only) are not covered; router/firewall frame paths only as far "
+            "install timing as a single run-level theorem (services only) are not covered; of the loader only the defaults block of the "
+            "services loop is translated (install_duration has no configuration source: class default only; per-service `fixing_duration` "
+            "options are C14/C20's; float / underscore numerals of the defaults section are outside the value model); router/firewall frame paths only as far "
             "as the hand-over test to the session manager.",
     "technique": "Lean 4 theorems over executable lifecycle, registry, receive-path and payload models; models tied by regenerated "
                  "tables, by source-to-Lean translation of the software manager's functions and by three differential rigs",
